@@ -235,7 +235,10 @@ def run_measure(case):
 HCALLS = ([("measure", (a, b)) for a, b in (("C", "E"), ("C", "G"), ("E", "C"), ("G", "B"), ("Cb", "B#"), ("E", "E"))] +
           [("measure", ("C", "H")), ("measure", ("E", "x#")), ("measure", ("H", "C")), ("major_third", ("H",)), ("minor_sixth", ("Cx",))] +
           [("major_third", ("C",)), ("minor_third", ("E",)), ("perfect_fifth", ("G",)), ("major_seventh", ("Cb",)), ("minor_second", ("E",)),
-           ("is_consonant", ("C", "E")), ("is_dissonant", ("E", "C")), ("is_perfect_consonant", ("C", "G"))])
+           ("is_consonant", ("C", "E")), ("is_dissonant", ("E", "C")), ("is_perfect_consonant", ("C", "G")),
+           # the public helper the constructors are built on, asked directly with targets that carry accidentals
+           ("augment_or_diminish_until_the_interval_is_right", ("C", "Eb", 3)), ("augment_or_diminish_until_the_interval_is_right", ("C", "E#", 4)),
+           ("augment_or_diminish_until_the_interval_is_right", ("E", "G", 4)), ("get_interval", ("C", 3, "G"))])
 _HBASE = {}
 
 
